@@ -210,10 +210,6 @@ theorem readSuffix_ok {s : PState} {c : CState}
   split
   · exact sat_fail (good_of_some hc1)
   simp only []
-  split
-  · exact sat_pub (good_of_some hc1)
-  split
-  · exact sat_pub (good_of_some hc1)
   refine sat_rd_bind (reads_readUIntLU cx _ _) hc1 (fun n s2 hc2 hn => ?_)
   refine sat_rd_bind (reads_rdName cx) hc2 (fun name s3 hc3 _ => ?_)
   refine sat_rd_bind (reads_eol cx) hc3 (fun _ s4 hc4 _ => ?_)
